@@ -42,7 +42,7 @@ EXTENDS Integers, Sequences, FiniteSets, TLC
 (* parameters   p(a=name)  pdef(a=name; default)  pstar(a=name)  pstar0  pkw(a=name) *)
 (* statements                                                              *)
 (*   exprstmt(x) assign(a=op; lhs, rhs) return([x]) branch(a=pass|break|continue) *)
-(*   load(module literal, items...)  item(a=name)  alias(a=local; item)    *)
+(*   load(module literal, items...)  item(a=name loaded)  alias(a=local; item) *)
 (*   def(a=name; params..., block)  if(a = "" | "elif"; cond, block[, block]) *)
 (*   for(vars, x, block)  while(cond, block)  block(stmts...)  file(stmts...) *)
 (***************************************************************************)
@@ -149,6 +149,9 @@ OpToks(op) == IF op = "not in" THEN <<"not", "in">> ELSE <<op>>
 
 IsSimple(s) == s.k \in SimpleKinds
 
+\* the string literal token for a name loaded from a module (items carry the name itself)
+Quoted(n) == "'" \o n \o "'"
+
 RECURSIVE R(_, _), Own(_, _), RParam(_), RArg(_), RClause(_), RStmt(_, _), RBlock(_), RStmts(_)
 
 \* an expression at a position with context ctx
@@ -245,7 +248,7 @@ RStmt(s, kw) ==
          <<MARK, "load", "(", MARK, s.c[1].a>>
          \o JoinSeqs([i \in 1..(Len(s.c) - 1) |->
                         LET it == s.c[i + 1] IN
-                        IF it.k = "alias" THEN <<",", it.a, "=", it.c[1].a>> ELSE <<",", it.a>>], <<>>)
+                        IF it.k = "alias" THEN <<",", it.a, "=", Quoted(it.c[1].a)>> ELSE <<",", Quoted(it.a)>>], <<>>)
          \o <<"@,", ")">>
     [] s.k = "def" ->
          LET n == Len(s.c) IN
@@ -308,24 +311,27 @@ Terminals == Keywords \cup Punct \cup Classes
 
 Alt(lhs, rhss) == [x \in {lhs} |-> rhss]
 
-\* binary level:  X = Y XRest ;  XRest = empty | op Y XRest
+\* The productions are left-factored (alternatives of a nonterminal that begin alike are
+\* merged into a common prefix and a "...R" rest) so that one token of lookahead decides
+\* almost every Expand; this changes the derivations, not the language.
 Prods ==
      Alt("File", {<<>>, <<"Statement", "File">>, <<"newline", "File">>})
   @@ Alt("Statement", {<<"DefStmt">>, <<"IfStmt">>, <<"ForStmt">>, <<"WhileStmt">>, <<"SimpleStmt">>})
-  @@ Alt("DefStmt", {<<"def", "ident", "(", ")", ":", "Suite">>,
-                     <<"def", "ident", "(", "Params", ")", ":", "Suite">>,
-                     <<"def", "ident", "(", "Params", ",", ")", ":", "Suite">>})
-  \* parameter lists in their legal order
-  @@ Alt("Params", {<<"ident", "ParamsR">>,                      \* required
-                    <<"ParamsOpt">>})
-  @@ Alt("ParamsR", {<<>>, <<",", "Params">>})
-  @@ Alt("ParamsOpt", {<<"ident", "=", "Test", "ParamsOptR">>, <<"ParamsStar">>})
+  @@ Alt("DefStmt", {<<"def", "ident", "(", "DefParams", ":", "Suite">>})
+  @@ Alt("DefParams", {<<")">>, <<"Params", "DefParamsEnd">>})
+  @@ Alt("DefParamsEnd", {<<")">>, <<",", ")">>})
+  \* parameter lists in their legal order: required, optional, * or *args, keyword-only, **kwargs
+  @@ Alt("Params", {<<"ident", "ParamsAfterId">>, <<"ParamsStar">>})
+  @@ Alt("ParamsAfterId", {<<>>, <<",", "Params">>, <<"=", "Test", "ParamsOptR">>})
   @@ Alt("ParamsOptR", {<<>>, <<",", "ParamsOpt">>})
-  @@ Alt("ParamsStar", {<<"*", "ident", "ParamsKwOnlyR">>,        \* *args [, kwonly...] [, **kw]
-                        <<"*", ",", "KwOnly", "ParamsKwOnlyR">>,   \* bare * needs a parameter after it
-                        <<"**", "ident">>})
-  @@ Alt("ParamsKwOnlyR", {<<>>, <<",", "KwOnly", "ParamsKwOnlyR">>, <<",", "**", "ident">>})
-  @@ Alt("KwOnly", {<<"ident">>, <<"ident", "=", "Test">>})
+  @@ Alt("ParamsOpt", {<<"ident", "=", "Test", "ParamsOptR">>, <<"ParamsStar">>})
+  @@ Alt("ParamsStar", {<<"*", "ParamsAfterStar">>, <<"**", "ident">>})
+  @@ Alt("ParamsAfterStar", {<<"ident", "ParamsKwOnlyR">>,            \* *args [, kwonly...] [, **kw]
+                             <<",", "KwOnly", "ParamsKwOnlyR">>})      \* a bare * needs a parameter after it
+  @@ Alt("ParamsKwOnlyR", {<<>>, <<",", "ParamsKwOnlyNext">>})
+  @@ Alt("ParamsKwOnlyNext", {<<"KwOnly", "ParamsKwOnlyR">>, <<"**", "ident">>})
+  @@ Alt("KwOnly", {<<"ident", "KwOnlyDefault">>})
+  @@ Alt("KwOnlyDefault", {<<>>, <<"=", "Test">>})
   @@ Alt("IfStmt", {<<"if", "Test", ":", "Suite", "ElifTail">>})
   @@ Alt("ElifTail", {<<>>, <<"elif", "Test", ":", "Suite", "ElifTail">>, <<"else", ":", "Suite">>})
   @@ Alt("ForStmt", {<<"for", "LoopVars", "in", "Expression", ":", "Suite">>})
@@ -333,26 +339,31 @@ Prods ==
   @@ Alt("Suite", {<<"newline", "indent", "Statement", "Stmts", "outdent">>, <<"SimpleStmt">>})
   @@ Alt("Stmts", {<<>>, <<"Statement", "Stmts">>})
   @@ Alt("SimpleStmt", {<<"SmallStmt", "SmallRest">>})
-  @@ Alt("SmallRest", {<<"newline">>, <<";", "newline">>, <<";", "SmallStmt", "SmallRest">>})
-  @@ Alt("SmallStmt", {<<"return">>, <<"return", "Expression">>, <<"break">>, <<"continue">>, <<"pass">>,
-                       <<"Expression">>, <<"Expression", "AssignOp", "Expression">>, <<"LoadStmt">>})
-  @@ Alt("AssignOp", {<<o>> : o \in AssignOps})
+  @@ Alt("SmallRest", {<<"newline">>, <<";", "SmallRest2">>})
+  @@ Alt("SmallRest2", {<<"newline">>, <<"SmallStmt", "SmallRest">>})
+  @@ Alt("SmallStmt", {<<"return", "ReturnRest">>, <<"break">>, <<"continue">>, <<"pass">>,
+                       <<"Expression", "AssignRest">>, <<"LoadStmt">>})
+  @@ Alt("ReturnRest", {<<>>, <<"Expression">>})
+  @@ Alt("AssignRest", {<<>>} \cup {<<o, "Expression">> : o \in AssignOps})
+  \* "A load statement requires at least two arguments" (spec.md)
   @@ Alt("LoadStmt", {<<"load", "(", "string", ",", "LoadItem", "LoadRest">>})
   @@ Alt("LoadItem", {<<"string">>, <<"ident", "=", "string">>})
-  @@ Alt("LoadRest", {<<")">>, <<",", ")">>, <<",", "LoadItem", "LoadRest">>})
+  @@ Alt("LoadRest", {<<")">>, <<",", "LoadRest2">>})
+  @@ Alt("LoadRest2", {<<")">>, <<"LoadItem", "LoadRest">>})
   \* expressions
   @@ Alt("Expression", {<<"Test", "ExprRest">>})
   @@ Alt("ExprRest", {<<>>, <<",", "Test", "ExprRest">>})
-  @@ Alt("Test", {<<"OrTest">>, <<"OrTest", "if", "OrTest", "else", "Test">>, <<"Lambda">>})
-  @@ Alt("TestNoCond", {<<"OrTest">>, <<"LambdaNoCond">>})
-  @@ Alt("Lambda", {<<"lambda", ":", "Test">>, <<"lambda", "Params", ":", "Test">>})
-  @@ Alt("LambdaNoCond", {<<"lambda", ":", "TestNoCond">>, <<"lambda", "Params", ":", "TestNoCond">>})
+  @@ Alt("Test", {<<"OrTest", "CondRest">>, <<"lambda", "LambdaParams", "Test">>})
+  @@ Alt("CondRest", {<<>>, <<"if", "OrTest", "else", "Test">>})
+  @@ Alt("TestNoCond", {<<"OrTest">>, <<"lambda", "LambdaParams", "TestNoCond">>})
+  @@ Alt("LambdaParams", {<<":">>, <<"Params", ":">>})
   @@ Alt("OrTest", {<<"AndTest", "OrRest">>})
   @@ Alt("OrRest", {<<>>, <<"or", "AndTest", "OrRest">>})
   @@ Alt("AndTest", {<<"NotTest", "AndRest">>})
   @@ Alt("AndRest", {<<>>, <<"and", "NotTest", "AndRest">>})
   @@ Alt("NotTest", {<<"not", "NotTest">>, <<"Comparison">>})
-  @@ Alt("Comparison", {<<"BitOr">>, <<"BitOr", "CmpOp", "BitOr">>})      \* non-associative
+  @@ Alt("Comparison", {<<"BitOr", "CmpRest">>})                            \* non-associative
+  @@ Alt("CmpRest", {<<>>, <<"CmpOp", "BitOr">>})
   @@ Alt("CmpOp", {<<"==">>, <<"!=">>, <<"<">>, <<">">>, <<"<=">>, <<">=">>, <<"in">>, <<"not", "in">>})
   @@ Alt("BitOr", {<<"BitXor", "BitOrRest">>})
   @@ Alt("BitOrRest", {<<>>, <<"|", "BitXor", "BitOrRest">>})
@@ -369,24 +380,28 @@ Prods ==
   @@ Alt("Factor", {<<"+", "Factor">>, <<"-", "Factor">>, <<"~", "Factor">>, <<"Primary">>})
   @@ Alt("Primary", {<<"Operand", "Suffixes">>})
   @@ Alt("Suffixes", {<<>>, <<".", "ident", "Suffixes">>, <<"(", "CallRest", "Suffixes">>, <<"[", "SliceRest", "Suffixes">>})
-  @@ Alt("CallRest", {<<")">>, <<"Args", ")">>, <<"Args", ",", ")">>})
+  @@ Alt("CallRest", {<<")">>, <<"Args", "CallEnd">>})
+  @@ Alt("CallEnd", {<<")">>, <<",", ")">>})
   \* arguments in their legal order: positional, named, *args, **kwargs
   @@ Alt("Args", {<<"Test", "ArgsR">>, <<"ArgsNamed">>})
   @@ Alt("ArgsR", {<<>>, <<",", "Args">>})
-  @@ Alt("ArgsNamed", {<<"ident", "=", "Test", "ArgsNamedR">>, <<"*", "Test">>, <<"*", "Test", ",", "**", "Test">>, <<"**", "Test">>})
+  @@ Alt("ArgsNamed", {<<"ident", "=", "Test", "ArgsNamedR">>, <<"*", "Test", "ArgsStarR">>, <<"**", "Test">>})
   @@ Alt("ArgsNamedR", {<<>>, <<",", "ArgsNamed">>})
-  @@ Alt("SliceRest", {<<"Expression", "]">>,
-                       <<"SliceLo", ":", "SliceHi", "]">>,
-                       <<"SliceLo", ":", "SliceHi", ":", "SliceHi", "]">>})
-  @@ Alt("SliceLo", {<<>>, <<"Expression">>})
+  @@ Alt("ArgsStarR", {<<>>, <<",", "**", "Test">>})
+  @@ Alt("SliceRest", {<<"Expression", "SliceAfterLo">>, <<":", "SliceHi", "SliceEnd">>})
+  @@ Alt("SliceAfterLo", {<<"]">>, <<":", "SliceHi", "SliceEnd">>})
+  @@ Alt("SliceEnd", {<<"]">>, <<":", "SliceHi", "]">>})
   @@ Alt("SliceHi", {<<>>, <<"Test">>})
   @@ Alt("Operand", {<<"ident">>, <<"int">>, <<"float">>, <<"string">>, <<"bytes">>,
-                     <<"(", ")">>, <<"(", "Expression", ")">>, <<"(", "Expression", ",", ")">>,
-                     <<"[", "]">>, <<"[", "Expression", "]">>, <<"[", "Expression", ",", "]">>,
-                     <<"[", "Test", "ForClause", "Clauses", "]">>,
-                     <<"{", "}">>, <<"{", "Entries", "}">>, <<"{", "Entries", ",", "}">>,
-                     <<"{", "Entry", "ForClause", "Clauses", "}">>})
-  @@ Alt("Entries", {<<"Entry", "EntriesR">>})
+                     <<"(", "ParenRest">>, <<"[", "ListRest">>, <<"{", "DictRest">>})
+  @@ Alt("ParenRest", {<<")">>, <<"Expression", "CloseParen">>})
+  @@ Alt("CloseParen", {<<")">>, <<",", ")">>})
+  @@ Alt("ListRest", {<<"]">>, <<"Test", "ListAfterFirst">>})
+  @@ Alt("ListAfterFirst", {<<"ExprRest", "CloseBrack">>, <<"ForClause", "Clauses", "]">>})
+  @@ Alt("CloseBrack", {<<"]">>, <<",", "]">>})
+  @@ Alt("DictRest", {<<"}">>, <<"Entry", "DictAfterFirst">>})
+  @@ Alt("DictAfterFirst", {<<"EntriesR", "CloseBrace">>, <<"ForClause", "Clauses", "}">>})
+  @@ Alt("CloseBrace", {<<"}">>, <<",", "}">>})
   @@ Alt("EntriesR", {<<>>, <<",", "Entry", "EntriesR">>})
   @@ Alt("Entry", {<<"Test", ":", "Test">>})
   @@ Alt("ForClause", {<<"for", "LoopVars", "in", "OrTest">>})
@@ -432,7 +447,8 @@ FirstSeqT(st) ==
 (* of its right-hand sides; Match consumes an input terminal equal to the  *)
 (* top of the stack.  The string is in the language iff the configuration  *)
 (* (Len(input) + 1, <<>>) is reachable from (1, <<start>>).                *)
-(* Pruning: terminals on the stack <= tokens left; one token of lookahead. *)
+(* Pruning: terminals on the stack <= tokens left; one token of lookahead  *)
+(* against what the whole stack can begin with.                            *)
 (***************************************************************************)
 RecInit(start) == [pos |-> 1, stack |-> <<start>>]
 RecAccepting(input, cfg) == cfg.pos = Len(input) + 1 /\ cfg.stack = <<>>
@@ -447,8 +463,8 @@ RecNext(input, cfg) ==      \* the set of successor configurations
           ELSE { [pos |-> cfg.pos, stack |-> rhs \o rest] :
                    rhs \in { r \in Prods[top] :
                                /\ TermCount(r) + TermCount(rest) <= left
-                               /\ IF left = 0 THEN NullSeqT(r)
-                                  ELSE input[cfg.pos] \in FirstSeqT(r) \/ NullSeqT(r) } }
+                               /\ IF left = 0 THEN NullSeqT(r \o rest)
+                                  ELSE input[cfg.pos] \in FirstSeqT(r \o rest) } }
 
 \* membership decided by exhaustive search (used by the design check on short strings; the
 \* checks explore RecNext as a TLC state graph instead)
@@ -467,7 +483,7 @@ Recognise(input, start) == LET c0 == RecInit(start) IN Reach(input, {c0}, {c0})
 (***************************************************************************)
 IntPool   == {"0", "1", "7", "42", "0x1F", "0o17", "0b101", "12345678901234567890123"}
 FloatPool == {"2.5", "1.", ".5", "1e3", "1E-2", "0.0"}
-StrPool   == {"'s'", "\"d\"", "r's'", "'''t'''", "'m'"}
+StrPool   == {"'s'", "\"d\"", "r's'", "'''t'''", "'m'", "'d'"}
 BytesPool == {"b's'", "rb's'"}
 TokClass(tok) ==
   CASE tok \in Keywords \cup Punct -> tok
